@@ -40,11 +40,17 @@ type c14provRouter struct {
 
 func (r *c14provRouter) GetClosestPeers(ctx context.Context, k string) ([]peer.ID, error) {
 	c := r.gate.Park(ctx, "router:gcp", k)
-	if err := ctx.Err(); err != nil {
-		return nil, err
-	}
-	if c.Err != nil {
-		return nil, c.Err
+	// A failed lookup of the prefix-length estimation is retried after time.Sleep(1s) while
+	// Close waits for the estimation on a sync.Mutex; synctest's clock stands still while a
+	// goroutine waits for a mutex, so inside a bubble that (bounded) wait would never end.
+	// The estimation's lookups therefore always succeed here, also on a cancelled context.
+	if c.Actor != "approx" {
+		if err := ctx.Err(); err != nil {
+			return nil, err
+		}
+		if c.Err != nil {
+			return nil, c.Err
+		}
 	}
 	sorted := kb.SortClosestPeers(append([]peer.ID(nil), r.peers...), kb.ConvertKey(k))
 	if len(sorted) > r.k {
@@ -98,6 +104,15 @@ type c14provCase struct {
 
 func c14provRun(r *vfRand, c *c14provCase, tr *zzc14.Trace) (*zzc14.Plan, string) {
 	gate := zzc14.NewGate()
+	gate.Classify = func(stack string) string {
+		switch {
+		case strings.Contains(stack, ").approxPrefixLen"):
+			return "approx"
+		case strings.Contains(stack, "connectivity.(*ConnectivityChecker)"):
+			return "probe"
+		}
+		return "work"
+	}
 	router := &c14provRouter{gate: gate, k: c.k}
 	for i := 0; i < c.npeers; i++ {
 		router.peers = append(router.peers, zzc14.PeerID(r.Uint64()))
